@@ -17,6 +17,8 @@
 #include <csetjmp>
 #include <cstdlib>
 #include <algorithm>
+#include <dlfcn.h>
+#include <sys/mman.h>
 #include "convert.h"
 #include "types.h"
 #include "mc.hpp"
@@ -213,6 +215,34 @@ static FltNum parse_flt(const char *s, size_t n)
 	if (hex) r.d.e2 = ex - 4 * frac; else r.d.e10 = ex - frac;
 	r.valid = true;
 	return r;
+}
+
+// ------------------------------------------------------------------ controlled <ctype.h> table
+// isgraph()/isspace() index the table returned by __ctype_b_loc(); for an argument outside
+// -128..255 that is an out-of-bounds read whose result depends on whatever lies next to libc's table
+// (and on address-space randomisation).  The harness supplies the table instead: identical to the C
+// library's one for every valid index, "every class" for the invalid indexes on the same pages, and
+// an inaccessible reservation for every other int index.  Defined behaviour is unchanged; undefined
+// calls become deterministic (truncated acceptance nearby, SIGSEGV far away), so replays reproduce.
+extern "C" const unsigned short **__ctype_b_loc(void) throw()
+{
+	static const unsigned short *tab = 0;
+	if (!tab) {
+		typedef const unsigned short **(*loc_fn)(void);
+		loc_fn real = (loc_fn) dlsym(RTLD_NEXT, "__ctype_b_loc");
+		const size_t half = (size_t) 1 << 32;
+		char *base = (char *) mmap(0, 2 * half, PROT_NONE, MAP_PRIVATE | MAP_ANONYMOUS | MAP_NORESERVE, -1, 0);
+		if (base == MAP_FAILED || !real) { static const unsigned short *fallback; fallback = real ? *real() : 0; return &fallback; }
+		char *mid = base + half;
+		mprotect(mid - 4096, 8192, PROT_READ | PROT_WRITE);
+		unsigned short *t = (unsigned short *) mid;
+		for (int i = -2048; i < 2048; ++i) t[i] = 0xffff;
+		const unsigned short *r = *real();
+		for (int i = -128; i < 256; ++i) t[i] = r[i];
+		mprotect(mid - 4096, 8192, PROT_READ);
+		tab = t;
+	}
+	return &tab;
 }
 
 // ------------------------------------------------------------------ fault guard (the converters are pure: resuming after a fault is safe)
